@@ -57,6 +57,10 @@ func parseRefCC(lines []string) refCC {
 				r.maPresent = true
 				if n, err := strconv.ParseInt(val, 10, 64); err == nil && n >= 0 && !r.maOK {
 					r.ma, r.maOK = n, true
+				} else if allDigits(val) && !r.maOK {
+					// a delta-seconds value too large for an int64 is still a number: "forever"
+					// (RFC 9111 section 1.2.2); any cap is acceptable for the lifetime (lifeFree)
+					r.ma, r.maOK = 1<<62, true
 				}
 			}
 		}
@@ -609,4 +613,16 @@ func runMethodStatusCase(c *vrun.Ctx, env *penv, ignore, force bool, method stri
 		}
 	}
 	c.Outcome(fmt.Sprintf("method-status %s %d %s", method, status, pattern))
+}
+
+func allDigits(s string) bool {
+	if s == "" {
+		return false
+	}
+	for _, c := range s {
+		if c < '0' || c > '9' {
+			return false
+		}
+	}
+	return true
 }
